@@ -48,6 +48,12 @@ def node_impl(n):
     if k == "failmsg":
         from harness.lib import components as _c
         return {"processor": _c.make_failing_with(n["msg"])}
+    if k == "wvalue":
+        from harness.lib import components as _c
+        return {"processor": _c.make_value_writer(n["value"], n.get("key", "w"))}
+    if k == "raising0":
+        from harness.lib import components as _c
+        return {"processor": _c.make_raising_noargs(n["exc"])}
     if k == "note":
         from harness.lib import components as _c
         return {"processor": _c.VerifNoteOperation, "parameters": {"note": n["note"]}} if "note" in n else {"processor": _c.VerifNoteOperation}
@@ -73,8 +79,8 @@ def node_coq(n):
         raise pg.Unsupported("one-shot iterator component (direct oracle only)")
     if k == "baddesc":
         raise pg.Unsupported("descriptor-valued parameter (direct oracle only)")
-    if k in ("failmsg", "note", "raising"):
-        raise pg.Unsupported("unusual-string / unusual-exception component (direct oracle only)")
+    if k in ("failmsg", "note", "raising", "wvalue", "raising0"):
+        raise pg.Unsupported("unusual-string / unusual-exception / unusual-value component (direct oracle only)")
     if k == "failing0":
         return "(mkNode lib_failing [] None)"     # the model's error carries the class, not the message
     if k == "interrupt":
@@ -96,7 +102,7 @@ def node_meta(n):
 
 
 def node_repr(n):
-    if n["k"] in ("interrupt", "datesweep", "streamsrc", "streamsum", "sumitems", "baddesc", "failing0", "failmsg", "note", "raising"):
+    if n["k"] in ("interrupt", "datesweep", "streamsrc", "streamsum", "sumitems", "baddesc", "failing0", "failmsg", "note", "raising", "wvalue", "raising0"):
         c = node_impl(n)
         c = json.loads(json.dumps(c, default=lambda o: getattr(o, "__name__", None) or str(o)))
         return c
@@ -838,6 +844,25 @@ def unusual_string_cases(rng, n):
                      ("RuntimeError", "object"))[: max(2, n // 3)]:
         out.append({"nodes": [{"k": "src", "cfg": {"value": 2}}, {"k": "mul", "cfg": {"factor": 3}}, {"k": "raising", "exc": exc, "arg": arg},
                               {"k": "probe", "ckey": "k"}], "data0": None, "ctx0": {}, "kind": "unusual-exception-argument:%s:%s" % (exc, arg), "direct_only": True})
+    out += unusual_value_cases(n)
+    return out
+
+
+def unusual_value_cases(n):
+    """a node stores an unusual but legal VALUE in the context (0-d array, an object whose len() raises, a lock, a generator, a
+    mapping with tuple keys, a 5000-digit integer, ...): alone under its own key, and under a key from which a later node
+    resolves a parameter; and nodes raising exceptions constructed without arguments"""
+    from harness.lib.components import VALUE_KINDS
+    out = []
+    base = [{"k": "src", "cfg": {"value": 2}}, {"k": "mul", "cfg": {"factor": 3}}]
+    for i, kind in enumerate(VALUE_KINDS[: max(4, n)]):
+        out.append({"nodes": base + [{"k": "wvalue", "value": kind}, {"k": "add", "cfg": {"addend": 1}}, {"k": "probe", "ckey": "k"}],
+                    "data0": None, "ctx0": {}, "kind": "unusual-value:own-key:" + kind, "direct_only": True})
+        out.append({"nodes": base + [{"k": "wvalue", "value": kind, "key": "note"}, {"k": "note"}, {"k": "probe", "ckey": "k"}],
+                    "data0": None, "ctx0": {}, "kind": "unusual-value:as-parameter:" + kind, "direct_only": True})
+    for exc in ("KeyError", "VerifMissingField", "ValueError", "IndexError", "StopIteration", "OSError")[: max(3, n // 3)]:
+        out.append({"nodes": base + [{"k": "raising0", "exc": exc}, {"k": "probe", "ckey": "k"}], "data0": None, "ctx0": {},
+                    "kind": "exception-without-arguments:" + exc, "direct_only": True})
     return out
 
 
